@@ -41,22 +41,25 @@ _cache_ready = False
 
 
 def cache_dir():
-    """build/<hash>; the three most recently used cache directories are kept (two trees may be checked concurrently,
-    e.g. /repo and a scratch copy given through VERIF_REPO), older ones are pruned"""
+    """build/<hash>; cache directories that have not been used for 12 hours are pruned (several trees may be checked
+    concurrently: /repo and scratch copies given through VERIF_REPO, which drop their own directory when done: --drop)"""
     global _cache_ready
     d = os.path.join(BUILD, tree_hash())
     if _cache_ready:
         return d
     os.makedirs(d, exist_ok=True)
+    import time
     try:
         os.utime(d, None)
     except OSError:
         pass
-    others = [o for o in glob.glob(os.path.join(BUILD, '*'))
-              if os.path.isdir(o) and os.path.basename(o) != tree_hash() and len(os.path.basename(o)) == 16]
-    others.sort(key=lambda o: os.path.getmtime(o), reverse=True)
-    for other in others[2:]:
-        shutil.rmtree(other, ignore_errors=True)
+    for o in glob.glob(os.path.join(BUILD, '*')):
+        if os.path.isdir(o) and os.path.basename(o) != tree_hash() and len(os.path.basename(o)) == 16:
+            try:
+                if time.time() - os.path.getmtime(o) > 12 * 3600:
+                    shutil.rmtree(o, ignore_errors=True)
+            except OSError:
+                pass
     _cache_ready = True
     return d
 
@@ -110,6 +113,9 @@ def build_many(pairs, jobs=16):
 
 
 if __name__ == '__main__':
+    if sys.argv[1:2] == ['--drop']:      # remove the cache directory of the tree named by VERIF_REPO (scratch copies)
+        shutil.rmtree(os.path.join(BUILD, tree_hash()), ignore_errors=True)
+        sys.exit(0)
     import zoo as zoomod
     pairs = []
     names = sys.argv[1:] or list(zoomod.ZOO)
